@@ -1,6 +1,7 @@
 mod cmd_backend;
 mod cmd_stages;
 mod cmd_fun2core;
+mod cmd_subst;
 mod consts;
 mod pipe;
 mod rec;
@@ -75,6 +76,7 @@ fn main() {
         "pm" => cmd_pm(num(2, 1), num(3, 100) as usize, &mut *out),
         "stages" => cmd_stages::cmd_stages(num(2, 1), num(3, 0) as usize, args.get(5..).unwrap_or(&[]), &mut *out),
         "fun2core" => cmd_fun2core::cmd_fun2core(num(2, 1), num(3, 0) as usize, args.get(5..).unwrap_or(&[]), &mut *out),
+        "subst" => cmd_subst::cmd_subst(num(2, 1), num(3, 0) as usize, &mut *out, args.get(5..).unwrap_or(&[])),
         c => { eprintln!("unknown command {c}"); std::process::exit(2); }
     }
     out.flush().unwrap();
